@@ -123,10 +123,32 @@ def apply(ctx, W):
 
     # ------------------------------------------------------------------ S4 functions (trusted stub), S5 defaultable (trusted stub)
     l_impl = loop_by_header(fw, b, "type_impl.functions")
-    u4 = rules.outline(ctx, fw, b, top_let("module", 2), stmt_with_loop(l_impl), "build__functions",
+    # S4a: injection of base members (FnMut closure capturing two &mut locals, filter().enumerate()): trusted stub
+    u4a = rules.outline(ctx, fw, b, top_let("associated_functions"), stmt_with_loop(loop_by_header(fw, b, "regions.iter().filter")), "build__base_functions",
         "semantic: &SemanticState, resolvee_path: &ItemPath, regions: &Vec<Region>, vftable: &Option<TypeVftable>",
-        "&*semantic, resolvee_path, &regions, &vftable", outs=["associated_functions"], types=["Vec<Function>"],
-        kind="try", mode="T", tags=("C05", "C07"))
+        "&*semantic, resolvee_path, &regions, &vftable", outs=["mut associated_functions", "mut associated_functions_used_names"],
+        types=["Vec<Function>", "HashSet<String>"], kind="try", mode="T", tags=("C07",))
+    # S4b: the functions of the type's impl block (verified)
+    u4b = rules.outline(ctx, fw, b, stmt_with_loop(l_impl), stmt_with_loop(l_impl), "build__impl_functions",
+        "module: &crate::semantic::Module, semantic: &SemanticState, resolvee_path: &ItemPath, mut associated_functions: Vec<Function>, mut associated_functions_used_names: HashSet<String>",
+        "module, &*semantic, resolvee_path, associated_functions, associated_functions_used_names", outs=["associated_functions"], types=["Vec<Function>"],
+        kind="try", tags=("C05", "C10", "C12", "C16", "C17"), requires=["reg_wf(&semantic.type_registry)"], ensures=[
+            ("res is Ok ==> impl_functions_attached(&semantic.type_registry, module_scope(module), impl_block_of(module, *resolvee_path), res->Ok_0.0@)", ("C05", "C16", "C17"), "impl-functions-attached"),
+            ("""res is Ok ==> match impl_block_of(module, *resolvee_path) {
+                    Some(b) => forall|j: int, k: int| 0 <= j < k < b.functions@.len() ==> (#[trigger] b.functions@[j]).name.0 != (#[trigger] b.functions@[k]).name.0,
+                    None => true }""", ("C05",), "impl-no-duplicate-names"),
+        ])
+    ghost(ctx, fw, u4b, stmt_with_loop(l_impl)["span"][0], "let ghost base0 = associated_functions@;")
+    rules.for_to_index_loop(ctx, fw, u4b, l_impl, seq="type_impl.functions", ivar="i_m")
+    rules.index_loop_spec(ctx, fw, u4b, l_impl, tags=("C05",), invariants=[
+        ("reg_wf(&semantic.type_registry)", ("C05",)),
+        ("*type_impl == module.impls@[*resolvee_path] && module.impls@.contains_key(*resolvee_path)", ("C05",)),
+        ("associated_functions@.len() == base0.len() + i_m", ("C05",)),
+        ("forall|k: int| 0 <= k < i_m ==> associated_functions_used_names@.contains((#[trigger] type_impl.functions@[k]).name.0)", ("C05",)),
+        ("forall|j: int, k: int| 0 <= j < k < i_m ==> (#[trigger] type_impl.functions@[j]).name.0 != (#[trigger] type_impl.functions@[k]).name.0", ("C05",)),
+        ("forall|k: int| 0 <= k < i_m ==> fn_built(&semantic.type_registry, module_scope(module), false, #[trigger] type_impl.functions@[k], associated_functions@[base0.len() + k])", ("C05", "C16", "C17")),
+    ])
+
     defl = [s for s in st if s["kind"] == "stmt_expr" and fw.text(s["span"]).startswith("if defaultable")]
     if len(defl) != 1:
         raise rules.WeaveError("build: `if defaultable` statement not found")
@@ -196,7 +218,7 @@ def apply(ctx, W):
             }""")
 
     # ------------------------------------------------------------------ glue
-    fn, u = fn_into_verus(ctx, fw, "build", ret="res", tags=U, unit="semantic::type_definition::build",
+    fn, u = fn_into_verus(ctx, fw, "build", ret="res", tags=U + ("C05", "C16"), unit="semantic::type_definition::build",
         requires=["reg_wf(&old(semantic).type_registry)"],
         ensures=[
             ("reg_wf(&final(semantic).type_registry)", ("C10",), "build-keeps-reg-wf"),
@@ -222,6 +244,10 @@ def apply(ctx, W):
             })""", ("C01", "C02", "C03"), "build-alignment"),
             ("""res is Ok && res->Ok_0 is Some ==> declared_fields_placed(&old(semantic).type_registry, module_scope(&module_of(old(semantic), *resolvee_path)->0),
                     definition.statements@, res->Ok_0->0.inner->Type_0.regions@, &final(semantic).type_registry)""", ("C01", "C03", "C20"), "build-placement"),
+            ("""res is Ok && res->Ok_0 is Some ==> module_of(final(semantic), *resolvee_path) is Some && ({
+                let m = module_of(final(semantic), *resolvee_path)->0;
+                impl_functions_attached(&final(semantic).type_registry, module_scope(&m), impl_block_of(&m, *resolvee_path), res->Ok_0->0.inner->Type_0.associated_functions@) })""",
+             ("C05", "C16"), "build-impl-functions"),
             ("""res is Ok && res->Ok_0 is Some ==> build_vftable_ok(&old(semantic).type_registry, module_scope(&module_of(old(semantic), *resolvee_path)->0),
                     definition.statements@, &final(semantic).type_registry, *resolvee_path, res->Ok_0->0.inner->Type_0.vftable, res->Ok_0->0.inner->Type_0.regions@)""", ("C06",), "build-vftable"),
             ("""res is Ok && res->Ok_0 is Some ==> exists|target: Option<usize>| #![trigger attr_usize(definition.attributes.0@, "size"@, definition.attributes.0@.len() as int, target)]
